@@ -1,1 +1,2 @@
-"""C04"""
+"""C04 -- proof part from the contracts tagged C04; bounded API-level transparency runs (memo on/off, tracing, generated parser)."""
+from bounded.bC04 import run as bounded  # noqa: F401
